@@ -42,7 +42,7 @@ func (interleave) Name() string    { return "interleave" }
 func (interleave) Props() []string { return []string{"C07"} }
 func (interleave) Runs(tier string) int64 {
 	if tier == "thorough" {
-		return 300000
+		return 2000000
 	}
 	return 5000
 }
@@ -262,7 +262,7 @@ func (interleave) Execute(scAny any, keepLog bool) *core.Outcome {
 				out.Violate("C07", "pid-output-depends-on-"+variant, sig+kindOf(m, pid), "PID %#x (%s): output under %s differs from the base multiplex: %s", pid, kindOf(m, pid), variant, msg)
 			}
 		}
-		for pid := range got {
+		for _, pid := range pidKeys(got) {
 			if _, ok := base[pid]; !ok && len(got[pid]) > 0 && (only == nil || only[pid]) && !(except >= 0 && m.Streams[except].PID == pid) {
 				out.Violate("C07", "pid-output-depends-on-"+variant, sig+"new-pid", "PID %#x delivers data under %s but none in the base multiplex", pid, variant)
 			}
